@@ -212,6 +212,7 @@ def correspondence(run):
     for i in bad[:8]:
         report_mismatch(run, *meta[i])
     limit_block(run)
+    kinds_block(run, [t for j, t in enumerate(todo) if j % run.n(4, 2) == 0 or j >= len(todo) - run.n(700, 6000)])
     if len(bad) > 8:
         run.note("%d further disagreeing cases not reported individually" % (len(bad) - 8))
 
@@ -245,6 +246,178 @@ def limit_block(run):
                  {"kind": "limit", "limit": n, "yaql": text, "src": [src[0], sc.tojson(src[1])], "stages": sc.stages_json(stages),
                   "observed": repr(o), "model": model, "theorems": ["C14_limit"],
                   "requires": "values, or CollectionTooLarge exactly when a limited parameter / the result exceeds the limit"})
+
+
+# ------------------------------------------------------------------------------------------
+# raw kinds (yaql.convertOutputData = false): what the functions hand on, unconverted
+# ------------------------------------------------------------------------------------------
+class NestedLazy(Exception):
+    pass
+
+
+def raw_flagged(x, top=True):
+    """raw result -> the same value with tuples, lists, FrozenDicts (sc.FD) and dicts kept apart; a lazy result is the tuple
+    of its elements, a set ('set', frozen?, members)"""
+    from yaql.language import utils
+    if x is None or isinstance(x, (bool, int, str)):
+        return x
+    if isinstance(x, tuple):
+        return tuple(raw_flagged(t, False) for t in x)
+    if isinstance(x, list):
+        return [raw_flagged(t, False) for t in x]
+    if isinstance(x, utils.FrozenDict):
+        return sc.FD((raw_flagged(k, False), raw_flagged(v, False)) for k, v in x.items())
+    if isinstance(x, dict):
+        return {raw_flagged(k, False): raw_flagged(v, False) for k, v in x.items()}
+    if isinstance(x, (set, frozenset)):
+        return ("set", isinstance(x, frozenset), tuple(raw_flagged(t, False) for t in x))
+    if hasattr(x, "__iter__"):
+        if not top:
+            raise NestedLazy()
+        return tuple(raw_flagged(t, False) for t in x)
+    raise ValueError("result outside the modelled universe: %r" % (x,))
+
+
+def python_containers(v, path="result"):
+    """the Python lists / dicts / mutable sets inside a raw_flagged value, as (path, kind, value)"""
+    out = []
+    if isinstance(v, list):
+        out.append((path, "list", v))
+    if isinstance(v, dict) and not isinstance(v, sc.FD):
+        out.append((path, "dict", v))
+    if isinstance(v, tuple) and len(v) == 3 and v[0] == "set" and isinstance(v[1], bool):
+        if not v[1]:
+            out.append((path, "set", v[2]))
+        for j, t in enumerate(v[2]):
+            out += python_containers(t, "%s{%d}" % (path, j))
+        return out
+    if isinstance(v, (list, tuple)):
+        for j, t in enumerate(v):
+            out += python_containers(t, "%s[%d]" % (path, j))
+    elif isinstance(v, dict):
+        for k, t in v.items():
+            out += python_containers(k, "%s.key(%r)" % (path, k)) + python_containers(t, "%s[%r]" % (path, k))
+    return out
+
+
+F26 = {"function": "enumerate / groupBy", "value": "the Python lists they produce: enumerate's [index, element] pairs, groupBy's value lists"}
+
+
+def is_f26(stages, path, kind, v, whole):
+    """exactly: a 2-element list [int, x] made by enumerate, or the list that is the second component of a groupBy group"""
+    if kind != "list":
+        return False
+    names = [s[0] for s in stages]
+    if "enumerate" in names and len(v) == 2 and isinstance(v[0], int) and not isinstance(v[0], bool):
+        return True
+    return any(s[0] == "groupBy" for s in stages) and path.endswith("[1]")
+
+
+def evaluate_raw(text, data, conv="camel"):
+    import signal
+    old = signal.signal(signal.SIGALRM, sc._alarm)
+    signal.alarm(20)
+    try:
+        r = sc.engine_opts(limit=2000, rawout=True)(text).evaluate(data=data, context=sc.context(conv))
+        return raw_flagged(r)
+    finally:
+        signal.alarm(0)
+        signal.signal(signal.SIGALRM, old)
+
+
+def kinds_block(run, todo):
+    """C: the raw result of every sampled case, container kinds included, against the model (Model/Streams.v raw_result);
+    O: the census - no Python list / dict / mutable set anywhere in what a function of the two modules hands on"""
+    cases, meta = [], []
+    for src, stages, literal, aliases, conv in todo:
+        if src[0] in ("recs",) or any(s[0] in ("self",) for s in stages):
+            continue
+        text0, _ = sc.source_setup(src, literal)
+        text = sc.conv_text(sc.pipeline_text(text0, stages, aliases=aliases), conv)
+        try:
+            v = evaluate_raw(text, sc.source_setup(src, literal)[1], conv)
+        except NestedLazy:
+            run.count("kinds:skipped (a lazy object inside the result)")
+            continue
+        except BaseException as e:
+            if isinstance(e, (KeyboardInterrupt, SystemExit)):
+                raise
+            run.count("kinds:skipped (the pipeline raises)")
+            continue
+        run.case(("kinds", src, sc.stages_json(stages)), nontrivial=bool(stages))
+        run.count("kinds:" + (type(v).__name__ if not (isinstance(v, tuple) and len(v) == 3 and v[0] == "set") else "set"))
+        for path, kind, w in python_containers(v):
+            fns = "/".join(s[0] for s in stages) or src[0]
+            run.fail("violation", "%s hands on a Python %s (%s): every function of the two modules returns scalars, yaql lists (tuples), "
+                                  "FrozenDicts, frozensets or lazy sequences" % (fns, kind, path.split("[")[0] + "..."),
+                     {"kind": "kinds", "yaql": text, "src": [src[0]] + [sc.tojson(x) for x in src[1:]], "stages": sc.stages_json(stages),
+                      "literal": literal, "conv": conv, "where": path, "python_kind": kind, "value": repr(w), "raw_result": repr(v),
+                      "required": "no Python list / dict / mutable set at any depth of a raw (yaql.convertOutputData=false) result",
+                      "finding_class": F26 if is_f26(stages, path, kind, w, v) else None, "theorems": ["C13_collection_kinds"]})
+            break
+        if isinstance(v, tuple) and len(v) == 3 and v[0] == "set" and isinstance(v[1], bool):
+            continue
+        cases.append("{| r_src := %s; r_stages := %s; r_val := %s |}" % (
+            sc.source_gal(src), "[" + "; ".join(sc.stage_gal(x) for x in stages) + "]", sc.gval_kind(v)))
+        meta.append((src, stages, literal, conv, text, v))
+    bad = run.coq_mismatches(sc.HEADER, "rcase", "rcase_ok", cases, shard=400)
+    seen = set()
+    for i in bad:
+        src, stages, literal, conv, text, v = meta[i]
+        fns = "/".join(s[0] for s in stages)
+        if fns in seen or len(seen) >= 4:
+            continue
+        seen.add(fns)
+        run.fail("violation", "%s: the raw result (container kinds included) differs from the reference model" % fns,
+                 {"kind": "kinds", "yaql": text, "src": [src[0]] + [sc.tojson(x) for x in src[1:]], "stages": sc.stages_json(stages),
+                  "literal": literal, "conv": conv, "raw_result": repr(v), "theorems": ["C13_collection_kinds"],
+                  "requires": "tuple / FrozenDict / frozenset / lazy sequence exactly where Model/Streams.v says so"})
+
+
+# collection-valued results, one expression per function family (X is used as a value afterwards)
+VALUE_USES = [
+    ("insert (list)", "$.insert(1, 9)"), ("splitAt", "$.splitAt(1)"), ("toList", "$.where($ > 1).toList()"), ("toDict", "$.toDict($, $ + 1)"),
+    ("dict(items)", "dict($.zip($))"), ("dict.set", "{a => 1}.set(b, 2)"), ("dict.set(dict)", "{a => 1}.set({b => 2})"), ("dict.delete", "{a => 1, b => 2}.delete(a)"),
+    ("deleteAll", "{a => 1, b => 2}.deleteAll([a])"), ("dict +", "({a => 1} + {b => 2})"),
+    ("mergeWith", "{a => {x => 1}, b => [1]}.mergeWith({a => {y => 2}, b => [2]})"), ("mergeWith maxLevels", "{a => {x => 1}}.mergeWith({a => {y => 2}}, maxLevels => 1)"),
+    ("keys", "{a => 1}.keys().toList()"), ("values", "{a => [1]}.values().toList()"), ("items", "{a => 1}.items().toList()"), ("list +", "($ + [4])"),
+    ("list()", "list(1, $)"), ("toSet", "$.toSet()"), ("set()", "set(1, 2)"), ("union", "set(1).union(set(2))"), ("difference", "(set(1, 2) - set(2))"),
+    ("set.add", "set(1).add(2)"), ("slice", "$.slice(2).toList()"), ("zip", "$.zip($).toList()"), ("zipLongest", "$.zipLongest([1]).toList()"),
+    ("splitWhere", "$.splitWhere($ = 2).toList()"), ("sliceWhere", "$.sliceWhere($ = 2).toList()"), ("selectMany", "$.selectMany([$, $]).toList()"),
+    ("join", "$.join([1, 2], $1 = $2, [$1, $2]).toList()"), ("accumulate", "$.accumulate([$1, $2]).toList()"), ("reverse", "$.reverse().toList()"),
+    ("orderBy", "$.orderByDescending($).toList()"), ("memorize", "$.memorize()"), ("defaultIfEmpty", "[].defaultIfEmpty([7])"), ("replace", "$.replace(1, 9).toList()"),
+    ("replaceMany", "$.replaceMany(1, [8, 9]).toList()"), ("delete", "$.delete(1).toList()"), ("insertMany", "$.insertMany(1, [8, 9]).toList()"),
+    ("distinct", "$.distinct().toList()"), ("flatten", "[[1, [2]], 3].flatten().toList()"), ("list * n", "($ * 2)"), ("groupBy aggregator", "$.groupBy($ mod 2, $, $.sum()).toList()"),
+    ("groupBy pipeline aggregator", "$.groupBy($ mod 2, $, $.where($ > 1).toList()).toList()"), ("unpack", "($.take(2).unpack(a, b) -> [$b, $a])"),
+    ("select [..]", "$.select([$, $]).toList()"), ("append", "$.append([4]).toList()"), ("concat", "$.concat([[4]]).toList()"), ("take", "$.take(2).toList()"),
+    ("range", "range(3).toList()"), ("repeat", "[1].repeat(2).toList()"), ("cycle", "$.cycle().take(4).toList()"), ("generate", "generate(0, $ < 3, $ + 1).toList()"),
+    ("generateMany", "generateMany(1, [$ * 2].where($ < 5)).toList()"), ("with", "(with($) -> $1)"), ("assert", "$.assert($.any())"),
+    ("enumerate", "$.enumerate().toList()"), ("groupBy", "$.groupBy($ mod 2).toList()"),
+]
+
+
+def value_use_laws(run, extra=()):
+    """every collection-valued result is a first-class yaql value: hashable (distinct, toSet, groupBy key, dict key) and equal to
+    the literal spelling of what it denotes"""
+    data = [1, 2, 3, 2]
+    for name, x in list(extra) + VALUE_USES:
+        shown = sc.evaluate(x, list(data))
+        if shown[0] == "err":
+            law_fail(run, "value use: the expression evaluates", x, tuple(data), "tuple", shown, "a value")
+            continue
+        lit = sc.set_text(shown[1]) if shown[0] == "set" else sc.vtext(dict(shown[1]) if shown[0] == "dict" else shown[1])
+        laws = [("[%s].distinct().len()" % x, 1), ("[%s, %s].toSet().len()" % (x, x), 1), ("[%s].groupBy($).len()" % x, 1),
+                ("dict().set(%s, 1).len()" % x, 1), ("%s = %s" % (x, lit), True), ("[%s].indexOf(%s)" % (x, lit), 0)]
+        for text, want in laws:
+            a = sc.evaluate(text, list(data))
+            run.case(("value-use", text))
+            run.count("value-use")
+            if a != ("val", want):
+                known = name in ("enumerate", "groupBy")
+                law_fail(run, "value use (%s): a collection-valued result is a first-class yaql value - usable as element of distinct / toSet, "
+                              "as groupBy and dict key, and equal to its literal spelling" % name, text, tuple(data), "tuple", a, repr(want),
+                         {"finding_class": F26} if known else None)
+                break
 
 
 def model_result(run, src, stages):
@@ -586,6 +759,7 @@ def oracle(run, deep):
                 check_laws_on(run, sc.fromjson(c["input"]))
             elif c.get("kind") == "differential":
                 differential(run, [sc.fromjson(c["input"])])
+    value_use_laws(run, [(c.get("note", "corpus"), c["expr"]) for c in (json.load(open(path)) if os.path.exists(path) else []) if c.get("kind") == "valueuse"])
     lists = small_lists(run, deep)
     for l in lists:
         check_laws_on(run, l)
@@ -607,6 +781,11 @@ def classify(failure, known):
 def replay(run, data):
     d = data["data"]
     kind = d.get("kind", "pipeline")
+    if kind == "kinds":
+        src, stages = src_from_json(d["src"]), sc.stages_from_json(d["stages"])
+        before = len(run.failures)
+        kinds_block(run, [(src, stages, d.get("literal", False), None, d.get("conv", "camel"))])
+        return not [f for f in run.failures[before:] if not classify(f, [{"class": F26, "line": "F26"}])]
     if kind == "limit":
         n, src, stages = d["limit"], src_from_json(d["src"]), sc.stages_from_json(d["stages"])
         text0, data = sc.source_setup(src, False)
@@ -619,6 +798,10 @@ def replay(run, data):
         src, stages = src_from_json(d["src"]), sc.stages_from_json(d["stages"])
         _, o = observe(src, stages, d.get("literal", False), None, d.get("conv", "camel"))
         return not run.coq_mismatches(sc.HEADER, "case", "case_ok", [sc.case_term(src, stages, o)])
+    if kind == "law" and d.get("law", "").startswith("value use"):
+        before = len(run.failures)
+        value_use_laws(run)
+        return not [f for f in run.failures[before:] if not classify(f, [{"class": F26, "line": "F26"}])]
     l = sc.fromjson(d["input"])
     before = len(run.failures)
     if kind == "law":
@@ -626,5 +809,5 @@ def replay(run, data):
     else:
         differential(run, [l])
     new = [f for f in run.failures[before:] if f.kind == "violation"]
-    known = [{"class": F18, "line": "F18"}]
+    known = [{"class": F18, "line": "F18"}, {"class": F26, "line": "F26"}]
     return not [f for f in new if not classify(f, known)]
